@@ -69,3 +69,57 @@ CONFIG['C17'] = {
                   "correspondence (complete u8/u16 domains + samples).",
     'technique': "Lean 4 theorems (omega, decide +kernel over complete domains, Mathlib monotonicity) over translated definitions + soft-float model + differential correspondence",
 }
+
+CONFIG['C04'] = {
+    'runs': [{'profile': 'verif-dbg'}],
+    'rule': "(1) check_crop_box through the hook on the boundary grid {0,1,W-1,W,W+1,2^31-1,2^31,2^32-2,2^32-1}^4 for 24 image sizes "
+            "incl. 0 and u32::MAX, plus seeded random u32 sextuples; (2) the six real cropped containers (TypedCroppedImage::new/from_ref, "
+            "TypedCroppedImageMut::new/from_ref, CroppedImage, CroppedImageMut) over tagged images of every size 0..4 x 0..4 with the same "
+            "kind of grid: outcome, error kind, and for accepted views every row as buffer indices; (3) f64 crop boxes through "
+            "Resizer::resize with 19^4 combinations of {-inf,-1e300,-1,denormals,+-0,0.5,1,W-1,W-0.5,W-ulp,W,W+ulp,W+1,1e300,inf,NaN}; "
+            "(4) every image constructor x 13 pixel types x sizes incl. 2^31 x 2^31 and u32::MAX^2 x buffer lengths need-1, need, need+1 x "
+            "misalignment 0..3 bytes. distinct_nontrivial counts distinct request lines of accepted views / grid points.",
+    'trusted_base': COMMON_TB + [
+        "row exposure of accepted views (Fir.View.rows) is tied to the real containers by correspondence (complete for images up to 4x4)",
+        "f64 comparisons/addition: Lean Float (hardware binary64); theorems use the IEEE-like carrier XF with an arbitrary rounding of the sum",
+    ],
+    'assumptions': [
+        "usize is 64 bits; every Rust slice is shorter than 2^63 bytes",
+        "a zero-area crop box or zero-sized destination is a documented no-op returning Ok *before* validation (resize_typed early-out, "
+        "pinned by crop_steps_as_modelled); C04's iff is stated for calls that reach the validation",
+        "Image::new / TypedImage::new allocate and have no error channel: absurd sizes abort in the allocator (outside C04)",
+    ],
+    'partial': [],
+    'level_text': "Machine-checked proof (Lean 4): check_crop_box and the constructors' size expressions are re-translated from the source on "
+                  "every run and proved to accept exactly the in-bounds rectangles / large-enough buffers for ALL u32 arguments with no "
+                  "overflow and the documented error kind; CroppedSrcImageView::crop is proved to accept exactly finite non-negative in-bounds "
+                  "f64 boxes (IEEE-like carrier, any rounding), its source text pinned to the model; real containers are compared with the "
+                  "model on boundary grids (about a million constructor calls per run).",
+    'level_note': "Trusted: Lean kernel, rs2lean, harness/protocol. The connection between an accepted view and the rows it exposes is proved "
+                  "in the model (Fir.View, C14/ViewLemmas) and tied to the code by correspondence.",
+    'technique': "Lean 4 theorems (omega, case analysis) over translated validation code + differential correspondence on boundary grids",
+}
+
+CONFIG['C14'] = {
+    'runs': [{'profile': 'verif-dbg'}],
+    'rule': "exhaustive: every view size 1..7 x 1..7 (thorough: 1..12) in five placements (exact typed image, typed image at an offset "
+            "of a longer buffer, crop inside a parent with margins, crop flush against the right/bottom edge of an offset parent, nested "
+            "crop), both axes, every (start, size, parts) with start 0..extent, size 1..extent+1, parts 1..size+1 (so invalid requests are "
+            "included), immutable and mutable splits; pixels carry their buffer index as identity; mutable parts are written through "
+            "(+1000*(part+1)) and the parent buffer is read back; plus seeded split-of-split compositions and degenerate (zero width / "
+            "height) views. distinct_nontrivial counts distinct accepted requests with at least 2 parts.",
+    'trusted_base': COMMON_TB,
+    'assumptions': ["views of the harness are built from TypedImageRef / TypedImage / TypedCroppedImage(Mut) to nesting depth 2; the theorems "
+                    "cover every nesting depth"],
+    'partial': ["a typed image of height 0 split by width panics in the real code (known finding F16); the model and theorems cover it "
+                "(splitW_tiles needs 0 < height only for the well-formedness of the parts)"],
+    'level_text': "Machine-checked proof (Lean 4), unbounded in all sizes and nesting depth: the model of split_by_height/width (slice "
+                  "splitting for typed images, delegation + re-wrapping for cropped views) returns None exactly for invalid requests and "
+                  "otherwise k well-formed parts whose sizes are n/k (+1 for the first n%k), whose rows glued in order are exactly the "
+                  "requested band, pairwise disjoint in buffer indices (so mutable parts never alias); split-of-split follows because "
+                  "parts are again well-formed views. The model is tied to the real containers by an exhaustive correspondence over "
+                  "small views.",
+    'level_note': "Trusted: Lean kernel, harness/protocol; the hand-written model Fir.View is tied to the code by correspondence (exhaustive "
+                  "up to 7x7 / 12x12, five placements), not generated from it.",
+    'technique': "Lean 4 theorems by structural induction on view descriptors and list induction + exhaustive differential correspondence",
+}
